@@ -289,6 +289,8 @@ def run_check(prop, tier="quick", seed=0, jobs=None, spec=None):
         }
         if agg.states:
             cov["distinct_states"] = len(agg.states)
+        if agg.capped:
+            cov["distinct_counts_are_lower_bounds"] = "counting of distinct cases/states stops at %d entries to bound memory" % runner.SET_CAP
         cov.update(spec["evidence"](agg, tier))
         if spec.get("post"):
             spec["post"](cov, stage_dir)
